@@ -115,6 +115,11 @@ def isErr {α ε : Type} : Result α ε → Bool
 def toOption {α ε : Type} : Result α ε → Option α
   | .ok v => some v
   | .err _ => none
+/-- `Option::ok_or`: `Some(v)` ↦ `Ok(v)`, `None` ↦ `Err(e)` -/
+def okOr {α ε : Type} (o : Option α) (e : ε) : Result α ε :=
+  match o with
+  | some v => .ok v
+  | none => .err e
 end Result
 
 end Chrono.GenRt
